@@ -141,7 +141,8 @@ def write_case(draw):
                         idx.append({"k": "pslice", "v": [draw(st.integers(0, n - 1)), None, draw(st.sampled_from([None, 2]))]})
                     else:
                         idx.append({"k": "full"})
-            steps.append({"k": kind, "idx": idx, "rhs": draw(st.sampled_from(["scalar", "ndarray", "dimarray"])), "base": draw(st.integers(0, 9))})
+            steps.append({"k": kind, "idx": idx, "rhs": draw(st.sampled_from(["scalar", "ndarray", "dimarray"] + (["dimarray-other-labels"] if kind == "position" else []))),
+                          "base": draw(st.integers(0, 9))})
         else:
             steps.append({"k": kind})
     return {"mode": "write", "file": fs, "var": vi, "steps": steps}
@@ -456,6 +457,10 @@ def run_write(case, tmp):
                 else:
                     # a DimArray block carrying all of the variable's dimensions (scalar-indexed ones as singletons)
                     full_labels = [[labels[i][p] for p in ([pp] if kind == "scalar" else pp)] for i, (kind, pp) in enumerate(per)]
+                    if step["rhs"] == "dimarray-other-labels":
+                        # a block whose own labels are not the target's: assigned by position, the file keeps its labels
+                        full_labels = [[(x + "_" if isinstance(x, str) else x + 1000) for x in l] for l in full_labels]
+                        cl.add("write:dimarray-other-labels")
                     rhs = da.DimArray(vals.reshape([len(l) for l in full_labels]), axes=[da.Axis(core.label_array(l), d) for d, l in zip(dims, full_labels)])
                     cl.add("write:dimarray")
                 what += " idx=%s rhs=%s" % (core.jsonable(descs), core.jsonable(rhs if not hasattr(rhs, "axes") else rhs.values))
